@@ -74,6 +74,14 @@ fn wildcard(v6: bool) -> IpAddr {
     }
 }
 
+fn bind_ip(v6: bool, lo: bool) -> IpAddr {
+    match (lo, v6) {
+        (false, _) => wildcard(v6),
+        (true, false) => IpAddr::V4(Ipv4Addr::LOCALHOST),
+        (true, true) => IpAddr::V6(Ipv6Addr::LOCALHOST),
+    }
+}
+
 // ===========================================================================
 // Ports (C15)
 
@@ -86,8 +94,8 @@ enum XSock {
 
 #[derive(Clone, Debug)]
 enum XCmd {
-    BindUdp { s: usize, p: u16 },
-    BindTcp { s: usize, p: u16 },
+    BindUdp { s: usize, p: u16, lo: bool },
+    BindTcp { s: usize, p: u16, lo: bool },
     Connect { s: usize, how: String },
     CancelPending,
     Accept { s: usize, l: usize },
@@ -169,9 +177,9 @@ async fn ports_x(sh: Rc<RefCell<PortsShared>>, nt: Rc<Notify>) -> turmoil::Resul
         let cmds: Vec<XCmd> = sh.borrow_mut().xcmds.drain(..).collect();
         for c in cmds {
             match c {
-                XCmd::BindUdp { s, p } => {
+                XCmd::BindUdp { s, p, lo } => {
                     let r = util::catch(|| {
-                        let mut fut = Box::pin(UdpSocket::bind((wildcard(v6), p)));
+                        let mut fut = Box::pin(UdpSocket::bind((bind_ip(v6, lo), p)));
                         futures_now(&mut fut)
                     });
                     let res = match r {
@@ -186,9 +194,9 @@ async fn ports_x(sh: Rc<RefCell<PortsShared>>, nt: Rc<Notify>) -> turmoil::Resul
                     };
                     sh.borrow_mut().results.push(json!({"s":s,"res":res}));
                 }
-                XCmd::BindTcp { s, p } => {
+                XCmd::BindTcp { s, p, lo } => {
                     let r = util::catch(|| {
-                        let mut fut = Box::pin(TcpListener::bind((wildcard(v6), p)));
+                        let mut fut = Box::pin(TcpListener::bind((bind_ip(v6, lo), p)));
                         futures_now(&mut fut)
                     });
                     let res = match r {
@@ -430,7 +438,9 @@ impl<'a> PortsRun<'a> {
             "bind" => {
                 let proto = o["proto"].as_str().unwrap();
                 let p = o["p"].as_u64().unwrap() as u16;
-                let c = if proto == "udp" { XCmd::BindUdp { s, p } } else { XCmd::BindTcp { s, p } };
+                let kind = o["kind"].as_str().unwrap_or("any").to_string();
+                let lo = kind == "lo";
+                let c = if proto == "udp" { XCmd::BindUdp { s, p, lo } } else { XCmd::BindTcp { s, p, lo } };
                 self.sh.borrow_mut().xcmds.push_back(c);
                 self.steps(1);
                 let r = self.wait_result(s);
@@ -441,7 +451,7 @@ impl<'a> PortsRun<'a> {
                         SlotInfo { kind: if proto == "udp" { "udp" } else { "lst" }.into(), port: res as u16, peer: 0, r: true, w: true },
                     );
                 }
-                json!({"ev":"bind","proto":proto,"s":s,"p":p,"res":res})
+                json!({"ev":"bind","proto":proto,"kind":kind,"s":s,"p":p,"res":res})
             }
             "connect" => {
                 let how = o["how"].as_str().unwrap().to_string();
@@ -778,8 +788,8 @@ fn main_ports_random(args: &[String]) {
             let pick = rng.random_range(0..100);
             let o = if let (true, Some(s)) = (pick < 55, free) {
                 match rng.random_range(0..9) {
-                    0 | 1 => json!({"a":"bind","proto":"udp","s":s,"p": if rng.random_bool(0.6) {0} else {fixed[rng.random_range(0..fixed.len())]}}),
-                    2 | 3 => json!({"a":"bind","proto":"tcp","s":s,"p": if rng.random_bool(0.6) {0} else {fixed[rng.random_range(0..fixed.len())]}}),
+                    0 | 1 => json!({"a":"bind","proto":"udp","kind": if rng.random_bool(0.4) {"lo"} else {"any"},"s":s,"p": if rng.random_bool(0.6) {0} else {fixed[rng.random_range(0..fixed.len())]}}),
+                    2 | 3 => json!({"a":"bind","proto":"tcp","kind": if rng.random_bool(0.3) {"lo"} else {"any"},"s":s,"p": if rng.random_bool(0.6) {0} else {fixed[rng.random_range(0..fixed.len())]}}),
                     4 | 5 => json!({"a":"connect","s":s,"how":"ok"}),
                     6 => {
                         let how = ["refused", "noroute", "cancel"][rng.random_range(0..3)];
@@ -1416,7 +1426,12 @@ fn tcp_do(run: &mut TcpRun<'_>, op: &Value, conn_host: &mut BTreeMap<u64, usize>
             let data: Vec<u8> = op["data"].as_array().unwrap().iter().map(|v| v.as_u64().unwrap() as u8).collect();
             let h = run.host_of_side(c, s, conn_host);
             let key = run.key(c, s);
-            run.cmd(h, TCmd::Write { key, c, s, data, via: (nact % 2) as u8 });
+            let via = match op["via"].as_str() {
+                Some("try") => 1,
+                Some("poll") => 0,
+                _ => (nact % 2) as u8,
+            };
+            run.cmd(h, TCmd::Write { key, c, s, data, via });
             run.step();
         }
         "shutdown" => {
@@ -1864,9 +1879,11 @@ fn main_tcp_random(args: &[String]) {
                         }
                         let pick = rng.random_range(0..100);
                         if pick < 30 && e.w {
-                            let len = rng.random_range(1..=4u64);
+                            let len = if rng.random_bool(0.12) { 0 } else { rng.random_range(1..=4u64) };
                             let data: Vec<u8> = (1..=len).map(|j| model_byte(*c, s, e.acc + j)).collect();
-                            run.cmd(hh, TCmd::Write { key, c: *c, s, data, via: rng.random_range(0..2) });
+                            // try_write exists on the whole stream only (no half dropped yet)
+                            let via = if e.r && e.w { rng.random_range(0..2) } else { 0 };
+                            run.cmd(hh, TCmd::Write { key, c: *c, s, data, via });
                             last_send = st;
                         } else if pick < 62 && e.r {
                             run.cmd(hh, TCmd::Read { key, c: *c, s, n: rng.random_range(0..=5), peek: false });
